@@ -399,6 +399,15 @@ def m_extend(reg, eng, st, recv, args, kwargs, node, rexpr):
     raise OutOfSubset(f"extend on {recv.t}")
 
 
+def m_sort(reg, eng, st, recv, args, kwargs, node, rexpr):
+    """list.sort(...) on a list seen as the collection of its elements: the elements do not change (order is not modelled)."""
+    if recv.t[0] == "list" and len(recv.x) <= 1:
+        return [(st, VNONE)]
+    if recv.t[0] in ("bag",):
+        return [(st, VNONE)]
+    raise OutOfSubset(f"sort on {recv.t}")
+
+
 def m_pop_bag(reg, eng, st, recv, args, kwargs, node, rexpr):
     if args:
         raise OutOfSubset("pop(index)")
@@ -590,8 +599,8 @@ def m_str_replace(reg, eng, st, recv, args, kwargs, node, rexpr):
 
 
 METHODS = {
-    "list": {"append": m_append, "extend": m_extend, "pop": m_pop_bag},
-    "bag": {"append": m_append, "extend": m_extend, "pop": m_pop_bag},
+    "list": {"append": m_append, "extend": m_extend, "pop": m_pop_bag, "sort": m_sort},
+    "bag": {"append": m_append, "extend": m_extend, "pop": m_pop_bag, "sort": m_sort},
     "seq": {"append": m_append, "extend": m_extend},
     "set": {"add": m_add, "update": m_update, "remove": m_remove, "discard": m_discard, "pop": m_pop_set,
             "intersection": m_intersection, "union": m_union},
